@@ -161,12 +161,14 @@ after the request line (`rest` is arbitrary): for a well-formed absolute-form or
 authority-form target whose port is not 0, the handler either waits for more
 bytes, answers 400 (e.g. unknown HTTP version, malformed header), or connects —
 and then to exactly (host without brackets, explicit-or-default port), as a
-tunnel iff the method is CONNECT.  It never drops the request silently, never
-raises, never connects anywhere else. -/
+tunnel iff the method is CONNECT — with and without `--enable-conn-pool` (`pool`;
+then the address is the key handed to a fresh `UpstreamConnectionPool.acquire`,
+which opens the new connection to that key).  It never drops the request
+silently, never raises, never connects anywhere else. -/
 theorem C14_end_to_end (cfg : Cfg) (m v rest : Bytes) (t : Target)
     (h : t.WF cfg.allowedSchemes) (hf : t.form ≠ .origin) (hd : cfg.defaultHttpPort ≠ 0) (hg : t.port ≠ some 0)
-    (hm : SP ∉ m) (hu : SP ∉ renderT t) (hlf : ∀ c ∈ m ++ SP :: (renderT t ++ SP :: v), c ≠ LF) :
-    match handleFirst cfg [m ++ SP :: (renderT t ++ SP :: v) ++ CRLF ++ rest] with
+    (hm : SP ∉ m) (hu : SP ∉ renderT t) (hlf : ∀ c ∈ m ++ SP :: (renderT t ++ SP :: v), c ≠ LF) (pool : Bool) :
+    match handleFirst cfg pool [m ++ SP :: (renderT t ++ SP :: v) ++ CRLF ++ rest] with
     | .connected a tn _ =>
       a = ⟨t.host.bare, derivedPort cfg (m == cfg.connectMethod) t.port⟩ ∧ tn = (m == cfg.connectMethod)
     | .closeSilent => False
@@ -200,6 +202,7 @@ theorem C14_end_to_end (cfg : Cfg) (m v rest : Bytes) (t : Target)
       have hq := C14_connect_addr cfg
         { ty := .request, totalSize := 0 + (m ++ SP :: (renderT t ++ SP :: v) ++ CRLF ++ rest).length, buffer := none,
           method := some m, isTunnel := false || m == cfg.connectMethod } t h hf hd hg
+      replace hq := (hq pool).1
       simp only [Bool.false_or] at hq hh1 hp1 ht1
       have hhost : pf.host = (setLineAttributes cfg
           { ty := .request, totalSize := 0 + (m ++ SP :: (renderT t ++ SP :: v) ++ CRLF ++ rest).length, buffer := none,
@@ -220,14 +223,14 @@ theorem C14_end_to_end (cfg : Cfg) (m v rest : Bytes) (t : Target)
         | some bb =>
           cases bb with
           | false => simp
-          | true => simp only [hq, htun]; trivial
+          | true => cases pool <;> simp only [hq, htun, poolAcquire] <;> trivial
 
 /-- hypotheses of `C14_end_to_end` are satisfiable (those of `C14_request_line` plus the guards),
     and the model does connect on such a request -/
 example : exT1.WF ({} : Cfg).allowedSchemes ∧ exT1.form ≠ .origin ∧ ({} : Cfg).defaultHttpPort ≠ 0 ∧
     exT1.port ≠ some 0 ∧ SP ∉ b "GET" ∧ SP ∉ renderT exT1 ∧
     (∀ c ∈ b "GET" ++ SP :: (renderT exT1 ++ SP :: b "HTTP/1.1"), c ≠ LF) := by decide +kernel
-example : handleFirst {} [b "GET" ++ SP :: (renderT exT1 ++ SP :: b "HTTP/1.1") ++ CRLF ++ b "Host: x\r\n\r\n"] =
+example : handleFirst {} true [b "GET" ++ SP :: (renderT exT1 ++ SP :: b "HTTP/1.1") ++ CRLF ++ b "Host: x\r\n\r\n"] =
     .connected ⟨b "2001:DB8::a", 8080⟩ false (b "GET /x;y?z=[1] HTTP/1.1") := by decide +kernel
 
 end Px.Connect
